@@ -343,4 +343,219 @@ theorem countsOf_sum (m : Nat) (l : List Int) (h : ∀ x ∈ l, 0 ≤ x ∧ x < 
     simp; omega
 
 
+
+/-! ## success ⇔ valid input, error soundness -/
+
+
+/-- strictly increasing -/
+def Increasing : List Int → Prop
+  | [] => True
+  | [_] => True
+  | a :: b :: t => a < b ∧ Increasing (b :: t)
+
+/-- last element of `a :: l` -/
+def lastD : Int → List Int → Int
+  | a, [] => a
+  | _, b :: t => lastD b t
+
+/-- `0 <= d < measurement_num` -/
+def InRangeD (m : Nat) (d : Int) : Prop := 0 ≤ d ∧ d < (m : Int)
+
+theorem le_lastD (a : Int) (l : List Int) (h : Increasing (a :: l)) : ∀ n ∈ a :: l, n ≤ lastD a l := by
+  induction l generalizing a with
+  | nil => intro n hn; simp at hn; subst hn; simp [lastD]
+  | cons b t ih =>
+    intro n hn
+    have hb := ih b h.2
+    simp only [lastD]
+    rcases List.mem_cons.1 hn with rfl | hn
+    · have := hb b (by simp); have := h.1; omega
+    · exact hb n hn
+
+/-- ok ⇒ sizes valid and consumed prefix in range -/
+theorem empiLoop_ok_valid (m len : Nat) :
+    ∀ (ds : List Int) (index : Nat) (freq : List Nat) (next : Int) (pos : Nat) (rest : List Int)
+      (acc out : List (Int × List Rat)),
+      len = index + ds.length → (index : Int) < next → next ≤ (len : Int) →
+      empiLoop m len ds index freq next pos rest acc = .ok out →
+      Increasing (next :: rest) ∧ (∀ n ∈ rest, n ≤ (len : Int)) ∧
+        ∀ x ∈ ds.take ((lastD next rest).toNat - index), InRangeD m x := by
+  intro ds
+  induction ds with
+  | nil => intro index freq next pos rest acc out hl h1 h2 _; simp at hl; omega
+  | cons d ds ih =>
+    intro index freq next pos rest acc out hl h1 h2 h
+    simp only [List.length_cons] at hl
+    simp only [empiLoop] at h
+    split at h
+    · cases h
+    · rename_i hr
+      have hr' : InRangeD m d := Classical.not_not.1 hr
+      have htake : ∀ (L : Int), (∀ x ∈ ds.take (L.toNat - (index + 1)), InRangeD m x) →
+          ∀ x ∈ (d :: ds).take (L.toNat - index), InRangeD m x := by
+        intro L hL x hx
+        cases hk : L.toNat - index with
+        | zero => rw [hk] at hx; simp at hx
+        | succ k =>
+          rw [hk, List.take_succ_cons] at hx
+          rcases List.mem_cons.1 hx with rfl | hx
+          · exact hr'
+          · exact hL x (by rw [show L.toNat - (index + 1) = k by omega]; exact hx)
+      split at h
+      · rename_i hnext
+        split at h
+        · refine ⟨trivial, by simp, ?_⟩
+          simp only [lastD]
+          intro x hx
+          have : next.toNat - index = 1 := by omega
+          rw [this] at hx; simp at hx; subst hx; exact hr'
+        · rename_i n2 rest'
+          split at h
+          · cases h
+          · split at h
+            · cases h
+            · rename_i hle hinc
+              obtain ⟨g1, g2, g3⟩ := ih (index + 1) _ n2 (pos + 1) rest' _ out (by omega) (by push_cast; omega) (by omega) h
+              refine ⟨⟨by omega, g1⟩, ?_, ?_⟩
+              · intro n hn
+                rcases List.mem_cons.1 hn with rfl | hn
+                · omega
+                · exact g2 n hn
+              · simp only [lastD]; exact htake _ g3
+      · rename_i hnext
+        obtain ⟨g1, g2, g3⟩ := ih (index + 1) _ next pos rest acc out (by omega) (by push_cast; omega) h2 h
+        exact ⟨g1, g2, htake _ g3⟩
+
+/-- valid ⇒ ok -/
+theorem empiLoop_valid_ok (m len : Nat) :
+    ∀ (ds : List Int) (index : Nat) (freq : List Nat) (next : Int) (pos : Nat) (rest : List Int)
+      (acc : List (Int × List Rat)),
+      len = index + ds.length → (index : Int) < next → Increasing (next :: rest) →
+      (∀ n ∈ next :: rest, n ≤ (len : Int)) →
+      (∀ x ∈ ds.take ((lastD next rest).toNat - index), InRangeD m x) →
+      ∃ out, empiLoop m len ds index freq next pos rest acc = .ok out := by
+  intro ds
+  induction ds with
+  | nil =>
+    intro index freq next pos rest acc hl h1 _ h3 _
+    have := h3 next (by simp); simp at hl; omega
+  | cons d ds ih =>
+    intro index freq next pos rest acc hl h1 hinc hle hrange
+    simp only [List.length_cons] at hl
+    have hlast := le_lastD next rest hinc next (by simp)
+    have hd : InRangeD m d := by
+      apply hrange
+      cases hk : (lastD next rest).toNat - index with
+      | zero => omega
+      | succ k => simp
+    have hrest : ∀ (L : Int), L = lastD next rest → ∀ x ∈ ds.take (L.toNat - (index + 1)), InRangeD m x := by
+      intro L hL x hx
+      apply hrange
+      subst hL
+      cases hk : (lastD next rest).toNat - index with
+      | zero => omega
+      | succ k =>
+        rw [List.take_succ_cons]
+        rw [show (lastD next rest).toNat - (index + 1) = k by omega] at hx
+        exact List.mem_cons_of_mem _ hx
+    simp only [empiLoop]
+    have hd' : 0 ≤ d ∧ d < (m : Int) := hd
+    rw [if_neg (not_not.2 hd')]
+    split
+    · rename_i hnext
+      cases rest with
+      | nil => exact ⟨_, rfl⟩
+      | cons n2 rest' =>
+        have h2le := hle n2 (by simp)
+        simp only []
+        rw [if_neg (by omega), if_neg (by have := hinc.1; omega)]
+        exact ih (index + 1) _ n2 (pos + 1) rest' _ (by omega) (by have := hinc.1; push_cast; omega) hinc.2
+          (fun n hn => hle n (by simp [hn])) (hrest _ (by simp [lastD]))
+    · rename_i hnext
+      exact ih (index + 1) _ next pos rest acc (by omega) (by push_cast; omega) hinc hle (hrest _ rfl)
+
+
+/-- error soundness of the loop: every reported error points at an actual defect at the reported position -/
+theorem empiLoop_error_sound (m len : Nat) :
+    ∀ (ds : List Int) (index : Nat) (freq : List Nat) (next : Int) (pos : Nat) (rest : List Int)
+      (acc : List (Int × List Rat)) (e : EmpiErr),
+      empiLoop m len ds index freq next pos rest acc = .error e →
+      (∃ i d, e = .dataOutOfRange (index + i) ∧ ds[i]? = some d ∧ ¬ InRangeD m d ∧
+          ∀ j x, j < i → ds[j]? = some x → InRangeD m x) ∨
+      (∃ k n, e = .numSumTooLarge (pos + 1 + k) ∧ rest[k]? = some n ∧ n > (len : Int)) ∨
+      (∃ k a b, e = .notIncreasing (pos + 1 + k) ∧ (next :: rest)[k]? = some a ∧ rest[k]? = some b ∧ a ≥ b) := by
+  intro ds
+  induction ds with
+  | nil => intro index freq next pos rest acc e h; simp [empiLoop] at h
+  | cons d ds ih =>
+    intro index freq next pos rest acc e h
+    simp only [empiLoop] at h
+    split at h
+    · rename_i hr
+      injection h with h; subst h
+      exact Or.inl ⟨0, d, rfl, by simp, hr, by intro j x hj; omega⟩
+    · rename_i hr
+      have hr' : InRangeD m d := Classical.not_not.1 hr
+      -- lifting a result for the tail `ds` (index + 1) to `d :: ds` (index)
+      have lift : ∀ {nx : Int} {ps : Nat} {rs : List Int},
+          ((∃ i d', e = .dataOutOfRange (index + 1 + i) ∧ ds[i]? = some d' ∧ ¬ InRangeD m d' ∧
+              ∀ j x, j < i → ds[j]? = some x → InRangeD m x) ∨
+            (∃ k n, e = .numSumTooLarge (ps + 1 + k) ∧ rs[k]? = some n ∧ n > (len : Int)) ∨
+            (∃ k a b, e = .notIncreasing (ps + 1 + k) ∧ (nx :: rs)[k]? = some a ∧ rs[k]? = some b ∧ a ≥ b)) →
+          ((∃ i d', e = .dataOutOfRange (index + i) ∧ (d :: ds)[i]? = some d' ∧ ¬ InRangeD m d' ∧
+              ∀ j x, j < i → (d :: ds)[j]? = some x → InRangeD m x) ∨
+            (∃ k n, e = .numSumTooLarge (ps + 1 + k) ∧ rs[k]? = some n ∧ n > (len : Int)) ∨
+            (∃ k a b, e = .notIncreasing (ps + 1 + k) ∧ (nx :: rs)[k]? = some a ∧ rs[k]? = some b ∧ a ≥ b)) := by
+        intro nx ps rs hh
+        rcases hh with ⟨i, d', he, h1, h2, h3⟩ | hh | hh
+        · refine Or.inl ⟨i + 1, d', by rw [he]; congr 1; omega, by simpa using h1, h2, ?_⟩
+          intro j x hj hx
+          cases j with
+          | zero => simp at hx; subst hx; exact hr'
+          | succ j => exact h3 j x (by omega) (by simpa using hx)
+        · exact Or.inr (Or.inl hh)
+        · exact Or.inr (Or.inr hh)
+      split at h
+      · rename_i hnext
+        split at h
+        · cases h
+        · rename_i n2 rest'
+          split at h
+          · rename_i hgt
+            injection h with h; subst h
+            exact Or.inr (Or.inl ⟨0, n2, rfl, by simp, hgt⟩)
+          · split at h
+            · rename_i hge
+              injection h with h; subst h
+              exact Or.inr (Or.inr ⟨0, next, n2, rfl, by simp, by simp, hge⟩)
+            · have := lift (ih (index + 1) _ n2 (pos + 1) rest' _ e h)
+              rcases this with hh | ⟨k, n, he, h1, h2⟩ | ⟨k, a, b, he, h1, h2, h3⟩
+              · exact Or.inl hh
+              · exact Or.inr (Or.inl ⟨k + 1, n, by rw [he]; congr 1; omega, by simpa using h1, h2⟩)
+              · exact Or.inr (Or.inr ⟨k + 1, a, b, by rw [he]; congr 1; omega, by simpa using h1, by simpa using h2, h3⟩)
+      · exact lift (ih (index + 1) _ next pos rest acc e h)
+
+theorem mem_take_mono {α : Type} (l : List α) (a b : Nat) (hab : a ≤ b) (x : α) (hx : x ∈ l.take a) : x ∈ l.take b := by
+  have : l.take a = (l.take b).take a := by rw [List.take_take, Nat.min_eq_left hab]
+  rw [this] at hx
+  exact List.mem_of_mem_take hx
+
+
+
+/-- a requested size that is already behind the loop position is never reached -/
+theorem empiLoop_never (m len : Nat) :
+    ∀ (ds : List Int) (index : Nat) (freq : List Nat) (next : Int) (pos : Nat) (rest : List Int)
+      (acc : List (Int × List Rat)), next ≤ (index : Int) → (∀ x ∈ ds, InRangeD m x) →
+      empiLoop m len ds index freq next pos rest acc = .ok acc.reverse := by
+  intro ds
+  induction ds with
+  | nil => intros; rfl
+  | cons d ds ih =>
+    intro index freq next pos rest acc h hr
+    have hd : 0 ≤ d ∧ d < (m : Int) := hr d (by simp)
+    simp only [empiLoop]
+    rw [if_neg (not_not.2 hd), if_neg (by omega)]
+    exact ih (index + 1) _ next pos rest acc (by push_cast; omega) (fun x hx => hr x (by simp [hx]))
+
+
 end QM.C14
